@@ -177,3 +177,14 @@ Example C15_ex_decision :
 Proof. vm_compute. repeat split; reflexivity. Qed.
 Example C15_ex_within : within 12 (4, 3) /\ 12 <= int64_max.
 Proof. unfold within, int64_max, two63. cbn. lia. Qed.
+Example C15_ex_reply_hyps :
+  i_range C15_ex_input = Some [98;121;116;101;115;61;48;45;49;44;32;52;45;54;44;45;51]%N /\
+  zlen (i_obj C15_ex_input) <= int64_max /\ zlen (i_obj C15_ex_input) <= n_chunks (i_chunks C15_ex_input) /\
+  i_k0 C15_ex_input = 0%N.
+Proof. vm_compute. repeat split; intros H; discriminate H. Qed.
+(* "bytes=50-60" on 12 bytes: nothing satisfiable, the answer is the whole 200 *)
+Example C15_ex_unsatisfiable :
+  (forall s p, In s [RRange 50 60] -> ~ wants 12 s p) /\
+  reply_run (mkIn (Some [98;121;116;101;115;61;53;48;45;54;48]%N) C15_ex_obj None [75]%N true 0 None None 4096 [1;1;1;1;1;1;1;1;1;1;1;1]%N)
+  = mkOut 200 12 None None (RDone C15_ex_obj false).
+Proof. split; [intros s p [<-|[]]; unfold wants; lia|vm_compute; reflexivity]. Qed.
